@@ -274,7 +274,13 @@ func (s *Suite) transformAndHash(doc []byte, opts *models.ProofOptions) ([]byte,
 // VerifyProof implements the ecdsa-2019 cryptographic suite for Verify Proof:
 // https://www.w3.org/TR/vc-di-ecdsa/#verify-proof-ecdsa-2019
 func (s *Suite) VerifyProof(doc []byte, proof *models.Proof, opts *models.ProofOptions) error {
-	message, vmKey, verifier, err := s.transformAndHash(doc, opts)
+	// the proof configuration that was signed carries the domain and challenge of the proof itself
+	// (opts.Domain and opts.Challenge are the values the verifier expects, possibly empty).
+	confOpts := *opts
+	confOpts.Domain = proof.Domain
+	confOpts.Challenge = proof.Challenge
+
+	message, vmKey, verifier, err := s.transformAndHash(doc, &confOpts)
 	if err != nil {
 		return err
 	}
@@ -319,7 +325,7 @@ func hashData(transformedDoc, confData []byte, h hash.Hash) []byte {
 }
 
 func proofConfig(docCtx interface{}, opts *models.ProofOptions) map[string]interface{} {
-	return map[string]interface{}{
+	conf := map[string]interface{}{
 		ldCtxKey:             docCtx,
 		"type":               models.DataIntegrityProof,
 		"cryptosuite":        SuiteType,
@@ -327,6 +333,16 @@ func proofConfig(docCtx interface{}, opts *models.ProofOptions) map[string]inter
 		"created":            opts.Created.Format(models.DateTimeFormat),
 		"proofPurpose":       opts.Purpose,
 	}
+
+	if opts.Domain != "" {
+		conf["domain"] = opts.Domain
+	}
+
+	if opts.Challenge != "" {
+		conf["challenge"] = opts.Challenge
+	}
+
+	return conf
 }
 
 // TODO copied from kid_creator.go, should move there: https://github.com/hyperledger/aries-framework-go/issues/3614
